@@ -819,10 +819,25 @@ func (d *Decimal) Reduce(x *Decimal) (*Decimal, int) {
 		return d, nd
 	}
 
-	// Divide by 10 in a loop. In benchmarks of reduce0.decTest, this is 20%
-	// faster than converting to a string and trimming the 0s from the end.
 	var z, r BigInt
 	d.setBig(&z)
+	// A long run of zeros is stripped a thousand at a time first: every
+	// division is as long as the coefficient. (10**1000 has more than 3000
+	// bits.)
+	const block = 1000
+	if d.Coeff.BitLen() > 3*block {
+		var tmpE BigInt
+		for e := tableExp10(block, &tmpE); ; {
+			z.QuoRem(&d.Coeff, e, &r)
+			if r.Sign() != 0 {
+				break
+			}
+			d.Coeff.Set(&z)
+			nd += block
+		}
+	}
+	// Divide by 10 in a loop. In benchmarks of reduce0.decTest, this is 20%
+	// faster than converting to a string and trimming the 0s from the end.
 	for {
 		z.QuoRem(&d.Coeff, bigTen, &r)
 		if r.Sign() == 0 {
